@@ -477,9 +477,10 @@ class Key(metaclass=InlineDocstring):
         else:
             raise ValueError(f'Invalid or unsupported curve type: `{self.curve!r}`.')
 
-        if generic:
+        if generic and self.curve != b'BL':
             prefix = b'sig'
         else:
+            # BLS12-381 signatures are 96 bytes long and have no generic (64-byte `sig`) form
             prefix = self.curve + b'sig'
 
         return base58_encode(signature, prefix).decode()
